@@ -192,40 +192,53 @@ Proof.
   apply nonterm_refs_incl. exact Hx.
 Qed.
 
-(** *** [expr_head] / [expr_tail] return a node of the tree *)
-Lemma expr_head_terminal e t d l sp : expr_head e = Terminal t d l sp -> In sp (term_spans e).
+(** *** [expr_head] / [expr_tail] return a node of the tree or of the table *)
+Definition follow_within (T : list span) (follow : option (list (string * expr))) : Prop :=
+  forall n rhs, followed follow n = Some rhs -> incl (term_spans rhs) T.
+
+Lemma expr_head_terminal T follow (Hf : follow_within T follow) f : forall e t d l sp,
+  incl (term_spans e) T -> expr_head follow f e = Ok (Terminal t d l sp) -> In sp T.
 Proof.
-  induction e using expr_ind'; cbn [expr_head term_spans]; intro Hh; try discriminate; auto.
-  - inversion Hh. left. reflexivity.
-  - destruct cs as [|c r]; [discriminate|]. inversion H; subst. cbn. apply in_or_app. left. auto.
+  induction f as [|f IH]; intros e t d l sp He Hh; [discriminate|]. rewrite expr_head_S in Hh.
+  destruct e; try discriminate.
+  - inversion Hh; subst. apply He. left. reflexivity.
+  - destruct (followed follow name) as [rhs|] eqn:E; [|discriminate].
+    eapply IH; [|exact Hh]. eapply Hf; eauto.
+  - destruct children as [|c r]; [discriminate|]. eapply IH; [|exact Hh].
+    intros x Hx. apply He. cbn. apply in_or_app. left. exact Hx.
+  - eapply IH; [|exact Hh]. exact He.
 Qed.
 
-Lemma expr_tail_terminal e t d l sp : expr_tail e = Terminal t d l sp -> In sp (term_spans e).
+Lemma expr_tail_terminal T follow (Hf : follow_within T follow) f : forall e t d l sp,
+  incl (term_spans e) T -> expr_tail follow f e = Ok (Terminal t d l sp) -> In sp T.
 Proof.
-  induction e using expr_ind'; try (cbn [expr_tail term_spans]; intro Hh; try discriminate; auto; fail).
-  - cbn. intro Hh. inversion Hh. left. reflexivity.
-  - cbn [expr_tail term_spans].
-    set (e0 := Sequence cs sp0). assert (He0 : forall t d l sp, e0 <> Terminal t d l sp) by (intros; discriminate).
-    generalize dependent e0.
-    induction H as [|x r Hx Hr IH]; intros e0 He0 Hh; [exfalso; eapply He0; exact Hh|].
-    destruct r as [|y r'].
-    + cbn. rewrite app_nil_r. apply Hx. exact Hh.
-    + cbn [flat_map]. apply in_or_app. right. apply (IH e0 He0). exact Hh.
+  induction f as [|f IH]; intros e t d l sp He Hh; [discriminate|]. rewrite expr_tail_S in Hh.
+  destruct e; try discriminate.
+  - inversion Hh; subst. apply He. left. reflexivity.
+  - destruct (followed follow name) as [rhs|] eqn:E; [|discriminate].
+    eapply IH; [|exact Hh]. eapply Hf; eauto.
+  - destruct (last_opt children) as [c|] eqn:El; [|discriminate]. apply last_opt_In in El.
+    eapply IH; [|exact Hh].
+    intros x Hx. apply He. cbn. apply in_flat_map. exists c. split; assumption.
+  - eapply IH; [|exact Hh]. exact He.
 Qed.
 
-Lemma adjacent_terminals_spans cs l r :
-  adjacent_terminals cs = Some (l, r) ->
-  In l (flat_map term_spans cs) /\ In r (flat_map term_spans cs).
+Lemma adjacent_terminals_spans T follow (Hf : follow_within T follow) f cs l r :
+  incl (flat_map term_spans cs) T ->
+  adjacent_terminals follow f cs = Ok (Some (l, r)) -> In l T /\ In r T.
 Proof.
-  induction cs as [|a rest IH]; [discriminate|]. destruct rest as [|b rest']; [discriminate|].
-  cbn [adjacent_terminals]. intro H.
-  assert (Hrec : adjacent_terminals (b :: rest') = Some (l, r) ->
-                 In l (flat_map term_spans (a :: b :: rest')) /\ In r (flat_map term_spans (a :: b :: rest'))).
-  { intro H'. destruct (IH H') as [H1 H2]. split; cbn [flat_map]; apply in_or_app; right; assumption. }
-  destruct (expr_tail a) eqn:Et; try (apply Hrec; exact H).
-  destruct (expr_head b) eqn:Eh; try (apply Hrec; exact H).
-  inversion H; subst. apply expr_tail_terminal in Et. apply expr_head_terminal in Eh.
-  split; cbn [flat_map]; apply in_or_app; [left; exact Et|right; apply in_or_app; left; exact Eh].
+  induction cs as [|a rest IH]; intros Hc H; [discriminate|]. destruct rest as [|b rest']; [discriminate|].
+  cbn [adjacent_terminals] in H.
+  assert (Hrest : incl (flat_map term_spans (b :: rest')) T).
+  { intros x Hx. apply Hc. cbn [flat_map]. apply in_or_app. right. exact Hx. }
+  destruct (expr_tail follow f a) as [ta| | |] eqn:Et; cbn [obind] in H; try discriminate.
+  destruct (expr_head follow f b) as [hb| | |] eqn:Eh; cbn [obind] in H; try discriminate.
+  destruct ta; try (apply IH; assumption). destruct hb; try (apply IH; assumption).
+  inversion H; subst. split.
+  - eapply expr_tail_terminal; [exact Hf| |exact Et].
+    intros x Hx. apply Hc. cbn [flat_map]. apply in_or_app. left. exact Hx.
+  - eapply expr_head_terminal; [exact Hf| |exact Eh].
+    intros x Hx. apply Hc. cbn [flat_map]. apply in_or_app. right. apply in_or_app. left. exact Hx.
 Qed.
 
 (** *** What [spaces] reports *)
@@ -254,30 +267,35 @@ Proof.
   - intro H. inversion H; subst. apply Hx. reflexivity.
 Qed.
 
-Lemma spaces_provenance R T table (Ht : table_within R T table) f : forall e trace within0 err,
+Lemma spaces_provenance R T table (Ht : table_within R T table) f : forall e trace within0 juxt err,
   within R T e ->
-  spaces table f e trace within0 = Err err -> spaces_report R T trace err.
+  spaces table f e trace within0 juxt = Err err -> spaces_report R T trace err.
 Proof.
-  induction f as [|f IH]; intros e trace w err Hw H; [discriminate|].
+  induction f as [|f IH]; intros e trace w juxt err Hw H; [discriminate|].
   rewrite spaces_S in H.
   assert (Hall : forall cs err, Forall (within R T) cs ->
-                                sp_all (fun c => spaces table f c trace w) cs = Err err ->
+                                sp_all (fun c => spaces table f c trace w false) cs = Err err ->
                                 spaces_report R T trace err).
   { intros cs err' Hcs H'. eapply sp_all_report; [|exact H']. rewrite Forall_forall in *.
     intros c Hc e' He'. eapply IH; [apply Hcs; exact Hc|exact He']. }
   destruct e; try discriminate.
   - (* NontermRef *)
     destruct (assoc name table) as [rhs|] eqn:En; [|discriminate].
-    apply (IH _ _ _ _ (Ht _ _ En)) in H. eapply spaces_report_weaken; [|exact H].
+    apply (IH _ _ _ _ _ (Ht _ _ En)) in H. eapply spaces_report_weaken; [|exact H].
     intros s Hs. apply in_app_or in Hs. destruct Hs as [Hs|[Hs|[]]]; [left; exact Hs|].
     right. subst s. destruct Hw as [Hr _]. apply in_map_iff. exists (name, sp).
     split; [reflexivity|apply Hr; left; reflexivity].
   - (* Sequence *)
     apply within_seq in Hw.
     destruct (sp_all _ children) as [[]|e'| |] eqn:E; cbn [obind] in H; try discriminate.
-    + destruct w; [|discriminate]. destruct (adjacent_terminals children) as [[l r]|] eqn:Ea; [|discriminate].
-      inversion H; subst. apply adjacent_terminals_spans in Ea. destruct Ea as [H1 H2].
-      apply within_list in Hw. destruct Hw as [_ HT]. cbn. repeat split; auto.
+    + destruct w; [|discriminate].
+      destruct (adjacent_terminals _ f children) as [[[l r]|]|e'| |] eqn:Ea; cbn [obind] in H;
+        try discriminate.
+      * inversion H; subst. apply within_list in Hw. destruct Hw as [_ HT].
+        eapply adjacent_terminals_spans in Ea; [|clear Ea|exact HT].
+        -- destruct Ea as [H1 H2]. cbn. repeat split; auto.
+        -- intros n rhs Hn. destruct juxt; cbn in Hn; [discriminate|]. apply (Ht _ _ Hn).
+      * exfalso. eapply adjacent_terminals_no_err; eauto.
     + inversion H; subst. eapply Hall; eauto.
   - apply within_alt in Hw. eapply Hall; eauto.
   - eapply IH; [|exact H]. exact Hw.
@@ -562,7 +580,7 @@ Section Back.
   Lemma spaces_provenance_top ord err :
     let table := resolve_in_order ord (table0_of defs2) in
     let expr2 := spec (distribute_descriptions (expr0_of g)) in
-    spaces table (spaces_fuel table expr2) expr2 [] false = Err err -> err_provenance g sh err.
+    spaces table (spaces_fuel table expr2) expr2 [] false false = Err err -> err_provenance g sh err.
   Proof.
     intros table expr2 H.
     eapply (spaces_provenance R T) in H.
@@ -615,8 +633,8 @@ Proof.
   cbn [fst snd]. unfold back_end. cbn zeta.
   destruct (resolution_order _) as [ord|e0| |] eqn:Ho; cbn [obind]; try discriminate.
   2:{ intro H. inversion H; subst e0. eapply cycle_provenance; eauto. }
-  match goal with |- context [spaces ?t ?f ?x [] false] =>
-    destruct (spaces t f x [] false) as [[]|e0| |] eqn:Es end; cbn [obind]; try discriminate.
+  match goal with |- context [spaces ?t ?f ?x [] false false] =>
+    destruct (spaces t f x [] false false) as [[]|e0| |] eqn:Es end; cbn [obind]; try discriminate.
   intro H. inversion H; subst e0. eapply spaces_provenance_top; eauto.
 Qed.
 
